@@ -11,6 +11,7 @@ import YaraModel.Lemmas.ReScan
 import YaraModel.Lemmas.ReSplit
 import YaraModel.Lemmas.ReCompleteHex
 import YaraModel.Lemmas.ReScanComplete
+import YaraModel.Lemmas.ReHexGram
 namespace YaraModel.C02
 open YaraModel.Re
 
@@ -187,7 +188,7 @@ open YaraModel.ReVm YaraModel.ReEmit in
     REPEAT_ANY fiber (arriving / waiting for a character / just consumed) and a continuation language per machine state; it
     is the instance for hex ASTs of the theorem for ALL well-formed expressions (Thm/C03 `vm_sound`).
     Backward code: `vm_sound_backward` below.  Separate statements: runs entering the code at an atom's instruction
-    (`verify_from_atom_sound`), the converse inclusion (`vm_complete_hex_partial`: every admissible length is reported in
+    (`verify_from_atom_sound`), the converse inclusion (`vm_complete_hex`: every admissible length is reported in
     exhaustive mode); not proved: the fast matcher `yr_re_fast_exec`. -/
 theorem vm_sound (r : Re) (hx : HexAst r) (hsz : (emit false r 0).1.length < 32000) (buf : Bytes) (start : Nat) (hst : start ≤ buf.size)
     (fl : VmFlags) (hw : fl.wide = false) (hb : fl.backwards = false) (hsc : fl.scan = false) (fuel : Nat) (m : Int) (c : List Nat)
@@ -217,10 +218,12 @@ open YaraModel.ReVm YaraModel.ReEmit in
 example : exec { code := (emitCode false (.cat (.lit 0x41) (.cat (.alt (.lit 0x42) (.cat (.masked 0x03 0x0F) (.lit 0x44))) (.cat (.rangeAny 1 2 false) (.notLit 0x45))))).toArray, entry := 0, buf := #[0x41, 0x13, 0x44, 0x00, 0x00, 0x46], start := 0, fl := { exhaustive := true, dotall := true } } = .done 6 [5, 6] := by decide
 
 open YaraModel.ReVm YaraModel.ReEmit in
-/-- `vm_complete_hex_partial`: VM COMPLETENESS for hex patterns, forward code — the converse of `vm_sound`.  `HexG r`: the
+/-- `vm_complete_hex`: VM COMPLETENESS for hex patterns, forward code — the converse of `vm_sound`.  `HexG r`: the
     hex ASTs in which the FIRST branch of every alternative begins with a byte-like token (byte, `??`, nibble mask, `~`) or
     a jump that may skip a byte, recursively through nested alternatives — every AST the hex grammar produces
-    (`tokens : token | token token | token token_sequence token`: a branch begins and ends with a byte or a nested alternative).
+    (`tokens : token | token token | token token_sequence token`: a branch begins and ends with a byte or a nested alternative;
+    proved over an inductive description of the grammar: `hexGrammar_builds_HexG`, and CHECKED on the AST of every generated
+    string: `hexG_tie_sound`).
     For ALL such patterns, buffers, start positions o = `start` and every match [o, o + L) of the pattern
     (`Re.Matches .. r start (start + L)`) with L within the scan window (RE_SCAN_LIMIT: L ≤ 1024): the exhaustive forward run of
     the executable model of `yr_re_exec` (Model/ReVm.lean `exec`: the fiber list with its de-duplication, `_yr_re_fiber_sync`
@@ -235,12 +238,13 @@ open YaraModel.ReVm YaraModel.ReEmit in
     successors of every accepted fiber (de-duplication only drops EQUAL fibers), so the path survives every position.  The
     executed-split set never kills a fiber of the path: split ids are numbered in emission order, hex code only branches
     forwards, and the first branch of an alternative stops inside its own code (`sync_fresh`).
-    `_partial`: statement (a) in full asks for every `HexAst`; NOT covered are alternatives whose first branch begins with a
-    degenerate jump `[0-0]` (then the second branch may be killed at a split that the first one already executed — the
-    fibers are duplicates, but the proof of that is the general visited-set argument); the grammar never produces them.
-    Also not covered: matches longer than the 1024-byte window (not reported by design), wide mode, non-exhaustive mode
-    (which length the forward verification run reports), runs entering at an atom's instruction. -/
-theorem vm_complete_hex_partial (r : Re) (hg : HexG r) (hsz : (emit false r 0).1.length < 32000) (hid : (emit false r 0).2 ≤ 256)
+    Scope: `HexG`, not every `HexAst` (the coarser predicate of the soundness theorems).  NOT covered are alternatives whose
+    first branch begins with a degenerate jump `[0-0]` (then the second branch may be killed at a split that the first one
+    already executed — the fibers are duplicates, but the proof of that is the general visited-set argument); the grammar
+    cannot build them (`hexGrammar_builds_HexG`) and the check verifies that on every generated string (`hexG_tie_sound`).
+    Also not covered: matches longer than the 1024-byte window (not reported by design), wide mode (hex strings are never
+    wide), non-exhaustive mode and runs entering at an atom's instruction (`verify_from_atom_complete`). -/
+theorem vm_complete_hex (r : Re) (hg : HexG r) (hsz : (emit false r 0).1.length < 32000) (hid : (emit false r 0).2 ≤ 256)
     (buf : Bytes) (start : Nat) (hst : start ≤ buf.size)
     (fl : VmFlags) (hw : fl.wide = false) (hb : fl.backwards = false) (hsc : fl.scan = false) (hx : fl.exhaustive = true)
     (fuel : Nat) (m : Int) (c : List Nat)
@@ -249,12 +253,12 @@ theorem vm_complete_hex_partial (r : Re) (hg : HexG r) (hsz : (emit false r 0).1
   vm_complete_fwd r hg hsz hid buf start hst fl hw hb hsc hx fuel m c h L hL hm
 
 open YaraModel.ReVm YaraModel.ReEmit in
-/-- `vm_complete_hex_backward_partial`: the mirrored statement for the BACKWARD code (the bytes before the atom): run with
+/-- `vm_complete_hex_backward`: the mirrored statement for the BACKWARD code (the bytes before the atom): run with
     RE_FLAGS_BACKWARDS from `start`, every match [start - L, start) of the pattern with L ≤ 1024 has its length reported by the
     exhaustive run on `emitCode true r` that returns without error.  `HexG (rev r)`: the mirrored pattern has the grammar's
     shape (the first branch of every alternative of `r` ENDS with a byte-like token).  Same proof through the
     direction-generic path lemma `acc_hex` (the backward code of `r` is the forward code of `rev r`). -/
-theorem vm_complete_hex_backward_partial (r : Re) (hg : HexG (rev r)) (hsz : (emit true r 0).1.length < 32000)
+theorem vm_complete_hex_backward (r : Re) (hg : HexG (rev r)) (hsz : (emit true r 0).1.length < 32000)
     (hid : (emit true r 0).2 ≤ 256) (buf : Bytes) (start : Nat) (hst : start ≤ buf.size)
     (fl : VmFlags) (hw : fl.wide = false) (hb : fl.backwards = true) (hsc : fl.scan = false) (hx : fl.exhaustive = true)
     (fuel : Nat) (m : Int) (c : List Nat)
@@ -270,11 +274,11 @@ example : HexG (.cat (.lit 0x41) (.cat (.alt (.lit 0x42) (.cat (.masked 0x03 0x0
    .seq (.seq (.seq (.notByte _) (.jump 1 2 (by decide) (by decide))) (.alt (.byte _) (.seq (.byte _) (.mask _ _)) (.byte _))) (.byte _)⟩
 
 open YaraModel.ReVm YaraModel.ReEmit in
-/-- the hypotheses of `vm_complete_hex_partial` are satisfiable together, non-trivially: `41 ( 42 | ?3 44 ) [1-2] ~45` on
+/-- the hypotheses of `vm_complete_hex` are satisfiable together, non-trivially: `41 ( 42 | ?3 44 ) [1-2] ~45` on
     `41 13 44 00 00 46` — the run returns `.done 6 [5, 6]` (no error), the pattern matches [0, 5) through the second branch
     of the alternative and a one-byte jump, and the theorem yields 5 ∈ [5, 6] -/
 example : 5 ∈ [5, 6] :=
-  vm_complete_hex_partial (.cat (.lit 0x41) (.cat (.alt (.lit 0x42) (.cat (.masked 0x03 0x0F) (.lit 0x44))) (.cat (.rangeAny 1 2 false) (.notLit 0x45))))
+  vm_complete_hex (.cat (.lit 0x41) (.cat (.alt (.lit 0x42) (.cat (.masked 0x03 0x0F) (.lit 0x44))) (.cat (.rangeAny 1 2 false) (.notLit 0x45))))
     (.seq (.byte _) (.seq (.alt (.byte _) (.seq (.mask _ _) (.byte _)) (.byte _)) (.seq (.jump 1 2 (by decide) (by decide)) (.notByte _))))
     (by decide) (by decide) #[0x41, 0x13, 0x44, 0x00, 0x00, 0x46] 0 (by decide) { exhaustive := true, dotall := true } rfl rfl rfl rfl
     100000 6 [5, 6] (by decide) 5 (by decide) ((Re.ends_iff_Matches _ _ _ _ _).1 (by decide))
@@ -290,7 +294,7 @@ open YaraModel.ReAtoms YaraModel.ReEmit in
         entry point `holePos c 0` of `verify_from_atom_sound`, and the backward one (`bwdRef`) is `bwdPos y c 0` behind the
         forward code and its MATCH;
       * the part of the pattern before `y` matches buf[p, s), `y` matches at s, and the rest matches up to q'
-    (or the string has the zero-length atom).  With VM completeness from the atom (`verify_from_atom_complete_partial`) this
+    (or the string has the zero-length atom).  With VM completeness from the atom (`verify_from_atom_complete`) this
     yields: every match is verified from its atom (`hex_scan_complete_partial`). -/
 theorem reAtoms_cover (q : Atom → Int) (m : Mods) (fl : Flags) (buf : Bytes) (hw1 : fl.wide = true → m.wide = true)
     (hw0 : fl.wide = false → (m.wide = false ∨ m.ascii = true)) (hn : m.nocase = fl.nocase) (r : Re) (hh : HexAst r) (hmk : MaskOK r)
@@ -355,16 +359,52 @@ open YaraModel.ReScan in
 example : scanHex (.cat (.lit 0x41) (.cat .any (.lit 0x43))) #[0x78, 0x41, 0x62, 0x43, 0x41, 0x2d, 0x43] {} 100000
     [⟨0, some 5, 1⟩, ⟨0, some 5, 4⟩] = [(1, 3), (4, 3)] := by decide
 
+open YaraModel.ReEmit YaraModel.ReHexG YaraModel.ReAtoms in
+/-- `hexGrammar_builds_HexG`: the hypotheses `HexG r`, `HexG (rev r)`, `MaskOK r` of the completeness theorems hold for
+    everything hex_grammar.y can build.  `Gram k r` (Lemmas/ReHexGram.lean) is an inductive description of the ASTs of the
+    grammar symbols k = token / `tokens` / rest of a token sequence / `alternatives` / piece of a chained string:
+      token        : byte | ~byte | nibble-masked byte | ~masked | ?? | '(' alternatives ')'
+      tokens       : token | token (token | jump)* token          — a jump ONLY occurs between tokens, never first or last
+      alternatives : tokens | alternatives '|' tokens              — so every alternative begins and ends with a token
+      piece        : tokens and jumps in any order                  — the root concatenation cut at its chaining points
+    with jumps non-greedy, ordered bounds, upper bound below 65536 (inside parentheses the grammar enforces ≤ 200; every
+    larger top-level jump between two siblings is a chaining point and is cut out; see below for the one exception).
+    For ALL ASTs of every symbol: the AST and its mirror image lie in `HexG`, and its masks are nibble masks.
+    (`[0-0]` jumps are legal but only between tokens, so no alternative begins or ends with one.) -/
+theorem hexGrammar_builds_HexG (k : Kind) (r : Re) (h : Gram k r) : HexG r ∧ HexG (rev r) ∧ MaskOK r :=
+  ⟨(gram_hexG h).1, (gram_hexG h).2.1, (gram_hexG h).2.2.1⟩
+
+open YaraModel.ReEmit YaraModel.ReHexG YaraModel.ReAtoms in
+/-- `hexG_tie_sound`: what the C02 run evaluates on the AST the REAL hex parser built for every generated and corpus
+    string (driver `rehexg` on every piece of `chainSplit`, vf/checks/re_common.py `check_hexg`; evidence `hexg_checked` /
+    `hexg_false`; a string whose piece fails is reported as a violation with the string): the decision procedure
+    `gram .piece` is sound for the description `Gram`, hence for the hypotheses of `vm_complete_hex` /
+    `hex_scan_complete_partial`; and the decidable `hexG` IS `HexG` (so `hexg_false = 0` means: no generated string left
+    the fragment).  The one family of LEGAL hex strings outside the description: two consecutive top-level jumps where the
+    first is a chaining point and the second has an upper bound ≥ 65536 (`{ 41 [300] [2-65540] 42 }`): the second jump is
+    the first child of its piece, never a chaining point, and its bound is truncated to 16 bits by the emitter — a defect
+    of the engine (notes/C02-jump-after-chaining-point-truncated.diff), not generated by the check. -/
+theorem hexG_tie_sound (r : Re) : (gram .piece r = true → HexG r ∧ HexG (rev r) ∧ MaskOK r) ∧ (hexG r = true ↔ HexG r) ∧
+    (hexG (mirror r) = true ↔ HexG (rev r)) ∧ (maskOK r = true → MaskOK r) :=
+  ⟨fun h => hexGrammar_builds_HexG .piece r (gram_sound r .piece h), hexG_iff r, by rw [mirror_eq_rev]; exact hexG_iff _, maskOK_sound⟩
+
+open YaraModel.ReHexG in
+/-- instances: `41 ( 42 [0-0] 43 | ?3 44 ) [1-2] ~45` is a `tokens`; a piece may begin with a jump; an alternative may not -/
+example : gram .toks (.cat (.lit 0x41) (.cat (.alt (.cat (.lit 0x42) (.cat (.rangeAny 0 0 false) (.lit 0x43))) (.cat (.masked 0x03 0x0F) (.lit 0x44))) (.cat (.rangeAny 1 2 false) (.notLit 0x45)))) = true ∧
+    gram .piece (.cat (.rangeAny 0 0 false) (.lit 0x42)) = true ∧
+    gram .toks (.alt (.cat (.rangeAny 0 0 false) (.lit 0x41)) (.lit 0x42)) = false ∧
+    hexG (.alt (.cat (.rangeAny 0 0 false) (.lit 0x41)) (.lit 0x42)) = false := by decide
+
 open YaraModel.ReVm YaraModel.ReEmit in
-/-- `verify_from_atom_complete_partial`: the converse of `verify_from_atom_sound` — the verification step finds every match
+/-- `verify_from_atom_complete`: the converse of `verify_from_atom_sound` — the verification step finds every match
     that runs through the atom.  Let `x` be a byte / masked byte / `??` node of a grammar-shaped hex pattern `c.fill x`
     (`HexG` of the pattern and of its mirror image), `o` any offset; if the part before `x` matches buf[o - lb, o), `x` matches
     at `o` and the rest matches up to o + lf (lb, lf ≤ 1024: the scan window), then
       * the FORWARD run entered at the node's instruction (`holePos c 0`) that ends without error has a result ≥ 0 —
         in ANY mode (the scanner runs it non-exhaustively) — and reports lf when it is exhaustive;
       * the exhaustive BACKWARD run entered behind the node's backward instruction (`bwdPos x c 0`) reports lb.
-    `_partial`: `HexG` instead of every `HexAst` (see `vm_complete_hex_partial`), byte mode. -/
-theorem verify_from_atom_complete_partial (c : Ctx) (x : Re) (hx : AtomLeaf x) (hg : HexG (c.fill x)) (hgr : HexG (rev (c.fill x)))
+    Scope: `HexG` (everything the grammar builds, see `vm_complete_hex`), byte mode. -/
+theorem verify_from_atom_complete (c : Ctx) (x : Re) (hx : AtomLeaf x) (hg : HexG (c.fill x)) (hgr : HexG (rev (c.fill x)))
     (hszf : (emit false (c.fill x) 0).1.length < 32000) (hidf : (emit false (c.fill x) 0).2 ≤ 256)
     (hszb : (emit true (c.fill x) 0).1.length < 32000) (hidb : (emit true (c.fill x) 0).2 ≤ 256)
     (buf : Bytes) (o : Nat) (ho : o ≤ buf.size) (flf flb : VmFlags)
@@ -382,11 +422,11 @@ theorem verify_from_atom_complete_partial (c : Ctx) (x : Re) (hx : AtomLeaf x) (
   exact ⟨k1, k2, (vm_complete_from_atom_bwd c x hx hgr hszb hidb buf o ho flb hb0 hb1 hb2 fuel2 m2 c2 hbw lb hlb hlo hbef).2 hb3⟩
 
 open YaraModel.ReVm YaraModel.ReEmit in
-/-- the hypotheses of `verify_from_atom_complete_partial` are satisfiable together: `10 41 ?? 43` over `x 10 A b C`, the atom
+/-- the hypotheses of `verify_from_atom_complete` are satisfiable together: `10 41 ?? 43` over `x 10 A b C`, the atom
     node `41` (forward entry 2, backward entry 5) at offset 2 — the non-exhaustive forward run returns `.done 3 []`, the
     exhaustive backward run `.done 1 [1]`; the match [1, 5) runs through the node, and the theorem yields 0 ≤ 3 and 1 ∈ [1] -/
 example : (0 : Int) ≤ 3 ∧ (({} : VmFlags).exhaustive = true → 3 ∈ ([] : List Nat)) ∧ 1 ∈ [1] :=
-  verify_from_atom_complete_partial (.catR (.lit 0x10) (.catL .hole (.cat .any (.lit 0x43)))) (.lit 0x41) (.inl ⟨_, rfl⟩)
+  verify_from_atom_complete (.catR (.lit 0x10) (.catL .hole (.cat .any (.lit 0x43)))) (.lit 0x41) (.inl ⟨_, rfl⟩)
     (.seq (.byte _) (.seq (.byte _) (.seq .wild (.byte _)))) (.seq (.seq (.seq (.byte _) .wild) (.byte _)) (.byte _))
     (by decide) (by decide) (by decide) (by decide) #[0x78, 0x10, 0x41, 0x62, 0x43] 2 (by decide) {} { backwards := true, exhaustive := true }
     rfl rfl rfl rfl rfl rfl rfl rfl 1000 1000 3 1 [] [1] (by decide) (by decide) 1 1 3 (by decide) (by decide) (by decide)
